@@ -159,6 +159,14 @@ def long_shapes(tier):
             for L in (2 ** k - 1, 2 ** k, 2 ** k + 1):
                 tx = (b"line of text\r\n" * (L // 14 + 1))[:L]
                 out.append(("%s/code/literal%d" % (code.decode(), L), code + b" (QUOTA/MAXSIZE) " + refms.enc_literal(tx) + b"\r\n", code, b"QUOTA/MAXSIZE", tx))
+    # non-ASCII texts in which a multi-octet character starts at every offset modulo its width (anything that cuts the text by octets
+    # somewhere splits one of them), quoted and literal, for all three status atoms
+    for code in (b"OK", b"NO", b"BYE"):
+        for ch_ in ("\u00e9", "\u20ac", "\U0001F600"):
+            for off in range(len(ch_.encode("utf-8"))):
+                tx = (b"a" * off) + ch_.encode("utf-8") * 40
+                out.append(("%s/none/utf8-quoted" % code.decode(), code + b" " + refms.enc_quoted(tx) + b"\r\n", code, None, tx))
+                out.append(("%s/code/utf8-literal" % code.decode(), code + b" (TRYLATER) " + refms.enc_literal(tx) + b"\r\n", code, b"TRYLATER", tx))
     return out
 
 
@@ -171,13 +179,15 @@ def long_task(t):
             srv = W.ScriptedServer(store={"a": b"keep;\r\n"}, active="a", version=True)
             s = wire.open_session(srv)
             srv.script = [line]
+            if code == b"BYE":
+                srv.close_after_bye = True
             s.client.errcode = None
             s.client.errmsg = b""
             s.cur_socket().set_seg(seg)
             o = s.call(op, *OPS[op])
             n += 1
             bad = judge(op, None, code, rcode, text, o, None)
-            if bad is None and o.leftover:
+            if bad is None and o.leftover and code != b"BYE":
                 bad = ("unread-bytes", "%d bytes of the reply left unread" % o.leftover)
             if bad:
                 viols.append({"property": "C09", "engine": "wire", "signature": ["C09", op, "long:" + label.rstrip("0123456789") + ("/segmented" if seg else ""), bad[0]],
